@@ -306,6 +306,16 @@ pub struct BackupOut {
     pub changes: Vec<ChangeRec>,
 }
 
+thread_local! {
+    /// Test hook: called with the apath of every entry the backup's change callback reports
+    /// (used to change the source tree while a backup is running).
+    static ON_CHANGE: RefCell<Option<Box<dyn FnMut(&str)>>> = const { RefCell::new(None) };
+}
+
+pub fn set_on_change(f: Option<Box<dyn FnMut(&str)>>) {
+    ON_CHANGE.with(|c| *c.borrow_mut() = f);
+}
+
 pub fn backup_rt(
     rt: Rt,
     archive: &Path,
@@ -327,6 +337,11 @@ pub fn backup_rt(
                 ch2.borrow_mut().push(ChangeRec {
                     apath: ec.apath.to_string(),
                     sigil: ec.change.sigil(),
+                });
+                ON_CHANGE.with(|c| {
+                    if let Some(f) = c.borrow_mut().as_mut() {
+                        f(&ec.apath);
+                    }
                 });
                 Ok(())
             })),
